@@ -2,6 +2,7 @@ package checks
 
 import (
 	"fmt"
+	"github.com/remieven/ysgo/variable"
 	"strings"
 	"time"
 
@@ -75,6 +76,12 @@ const c18ScriptBad = "title: X\n---\n<<set $x to to 1>>\nline\n<<if>>\n===\n"
 
 const c18ScriptLine = "title: L\n---\nonly [b]line[/b] {dice(6)}\n===\n"
 const c18ScriptOpt = "title: O\n---\n-> o1\n    in {random_range(1,9)}\n-> o2\nafter\n===\n"
+
+// c18ScriptPaired uses the open / close form of every replacement marker.
+const c18ScriptPaired = "title: P\n---\n[nomarkup][x]raw[/x][/nomarkup] a\n[select value=b a=\"1\" b=\"2\"][/select] b\n[plural value=3 one=\"% x\" other=\"% xs\"][/plural] c\n[ordinal value=2 one=\"%st\" two=\"%nd\" few=\"%rd\" other=\"%th\"][/ordinal] d\n===\n"
+
+// c18ScriptBadIndent fails to load while an indented block is still open (tabs and spaces mixed inside an option body).
+const c18ScriptBadIndent = "title: Y\n---\n-> o\n    in\n    \tmixed\n===\n"
 
 var c18Shared *ysgo.Snapshot
 
@@ -155,6 +162,8 @@ func runC18(ctx *report.Ctx) {
 	tL := &c18Task{name: "one line", script: c18ScriptLine, seed: "abc", path: []int{0, 0}}
 	tO := &c18Task{name: "one option group", script: c18ScriptOpt, seed: "abc", path: []int{0, 0, 0}}
 	tBad := &c18Task{name: "invalid script (load must fail)", script: c18ScriptBad, seed: "abc", path: nil}
+	tBadIndent := &c18Task{name: "invalid script (mixed indentation inside an option body)", script: c18ScriptBadIndent, seed: "abc", path: nil}
+	tP := &c18Task{name: "paired replacement markers", script: c18ScriptPaired, seed: "abc", path: []int{0, 0, 0, 0}}
 	all := []*c18Task{tA1, tA2, tA3, tC, tR1, tR2, tL, tO, tBad}
 	alone := map[*c18Task]string{}
 	for _, t := range all {
@@ -271,11 +280,13 @@ func runC18(ctx *report.Ctx) {
 		{"A(abc,left) || A(zz9,left)", []*c18Task{tA1, tA3}, report.Pick(ctx, 4, 0)},
 		{"A(abc,left) || C", []*c18Task{tA1, tC}, report.Pick(ctx, 4, 0)},
 		{"restore(shared) || restore(shared)", []*c18Task{tR1, tR2}, report.Pick(ctx, 3, 0)},
+		{"paired markers || paired markers", []*c18Task{tP, tP}, 0},
+		{"invalid (aborted in an indented block) || option group || invalid", []*c18Task{tBadIndent, tO, tBadIndent}, 0},
 		{"A(abc,left) || C || A(abc,right)", []*c18Task{tA1, tC, tA2}, report.Pick(ctx, 1, 3)},
 		{"restore(shared) || restore(shared) || A(abc,left)", []*c18Task{tR1, tR2, tA1}, report.Pick(ctx, 1, 2)},
 	}
 	if ctx.Quick() {
-		l1 = l1[:5]
+		l1 = l1[:7]
 	}
 	for i, sc := range l1 {
 		explore1(fmt.Sprintf("L1-%d", i+1), sc, vsched.Options{PreemptionBound: -1, Only: onlyAPI}, false, 5)
@@ -288,6 +299,7 @@ func runC18(ctx *report.Ctx) {
 		{"line || line", []*c18Task{tL, tL}, 0},
 		{"option group || option group", []*c18Task{tO, tO}, 0},
 		{"invalid script || line", []*c18Task{tBad, tL}, 0},
+		{"invalid script (load aborted inside an indented block) || option group", []*c18Task{tBadIndent, tO}, 0},
 	}
 	for i, sc := range l3 {
 		explore1(fmt.Sprintf("L3-warm-%d", i+1), sc, vsched.Options{PreemptionBound: bound}, false, 2)
@@ -302,19 +314,15 @@ func runC18(ctx *report.Ctx) {
 	}
 }
 
-// C18RaceTasks returns the tasks of C18 as plain functions (for the free-running -race pass);
-// each returns its observation trace.
-func C18RaceTasks() (names []string, tasks []func() string) {
-	dr, err := ysgo.NewDialogueRunner(nil, "abc", strings.NewReader(c18ScriptA))
-	if err == nil {
-		var l []string
-		c18Install(dr, &l)
-		for _, a := range []int{0, 0, 0, 0} {
-			dr.Next(a)
-		}
-		c18Shared = dr.Snapshot()
-	}
-	list := []*c18Task{
+// c18InitShared sets the snapshot shared by the restore tasks of the race pass without running anything (the race
+// pass starts cold: no parse and no Next call may precede the concurrent ones). It is the value Snapshot() returns
+// after the path 0,0,0,0 of script A: node B entered once, A left once, no variable yet.
+func c18InitShared() {
+	c18Shared = &ysgo.Snapshot{CurrentNode: "B", Variables: map[string]variable.Value{}, VisitedNodes: map[string]int{"A": 1}}
+}
+
+func c18RaceList() []*c18Task {
+	return []*c18Task{
 		{name: "A/seed abc/left", script: c18ScriptA, seed: "abc", path: []int{0, 0, 0, 0, 0, 0}},
 		{name: "A/seed abc/right", script: c18ScriptA, seed: "abc", path: []int{0, 0, 1, 0, 0}},
 		{name: "A/seed zz9/left", script: c18ScriptA, seed: "zz9", path: []int{0, 0, 0, 0, 0, 0}},
@@ -324,11 +332,34 @@ func C18RaceTasks() (names []string, tasks []func() string) {
 		{name: "one line", script: c18ScriptLine, seed: "abc", path: []int{0, 0}},
 		{name: "one option group", script: c18ScriptOpt, seed: "abc", path: []int{0, 0, 0}},
 		{name: "invalid script (load must fail)", script: c18ScriptBad, seed: "abc"},
+		{name: "paired replacement markers", script: c18ScriptPaired, seed: "abc", path: []int{0, 0, 0, 0}},
+		{name: "invalid script (mixed indentation inside an option body)", script: c18ScriptBadIndent, seed: "abc"},
 	}
-	for _, t := range list {
+}
+
+// C18RaceTasks returns the tasks of C18 as plain functions (for the free-running -race pass);
+// each returns its observation trace.
+func C18RaceTasks() (names []string, tasks []func() string) {
+	c18InitShared()
+	for _, t := range c18RaceList() {
 		t := t
 		names = append(names, t.name)
 		tasks = append(tasks, func() string { return t.run(func() {}) })
+	}
+	return
+}
+
+// C18RaceTasksHooked is C18RaceTasks with a hook called before every API call of a task (call 0 is the creation of
+// the runner, call 1 the first call on it): the race pass uses it to line the goroutines up after their creations.
+func C18RaceTasksHooked() (names []string, tasks []func(hook func(call int)) string) {
+	c18InitShared()
+	for _, t := range c18RaceList() {
+		t := t
+		names = append(names, t.name)
+		tasks = append(tasks, func(hook func(call int)) string {
+			n := 0
+			return t.run(func() { hook(n); n++ })
+		})
 	}
 	return
 }
